@@ -150,6 +150,7 @@ def handle (op : String) (args res : List String) : Option Verdict :=
             else st)
        | _, _, _, _, _, _ => .bad "parse")
     | _, _ => .bad "parse"
+  | "c13_utmtransfer" => some (structural "UTMUPS::Transfer" res)
   | "c13_utmrev" => some <|
     match args, res with
     | [z, np, x, y, mg], [e, la, lo, _w] =>
